@@ -258,8 +258,10 @@ def gen_pdb():
     S = np.linalg.inv(A)
     lines = ['HEADER    GENERATED', 'CRYST1%9.3f%9.3f%9.3f%7.2f%7.2f%7.2f %-11s%4d' % (cell[0], cell[1], cell[2], cell[3], cell[4], cell[5], sym, 1)]
     Sr = np.round(S, 6)
+    # the translation column u of SCALE (zero in most deposited files, but part of the record)
+    u = [0.0, 0.0, 0.0] if rng.random() < 0.4 else [round(rng.uniform(-0.5, 0.5), 5) for _ in range(3)]
     for i in range(3):
-        lines.append('SCALE%d    %10.6f%10.6f%10.6f     %10.5f' % (i + 1, Sr[i, 0], Sr[i, 1], Sr[i, 2], 0.0))
+        lines.append('SCALE%d    %10.6f%10.6f%10.6f     %10.5f' % (i + 1, Sr[i, 0], Sr[i, 1], Sr[i, 2], u[i]))
     atoms = []
     for i in range(rng.randint(1, 12)):
         el = rng.choice(ELEMENTS)
@@ -269,7 +271,7 @@ def gen_pdb():
         lab = ('%s%d' % (el.upper(), i + 1))[:4]
         lines.append('%s%5d %-4s %3s A%4d    %8.3f%8.3f%8.3f%6.2f%6.2f          %2s' % (rec, i + 1, lab, 'RES', i + 1, xyz[0], xyz[1], xyz[2], occ, b, el.upper().rjust(2)))
         atoms.append({'label': lab, 'el': el.upper(), 'xyz': xyz, 'occ': occ, 'b': b})
-    return '\n'.join(lines) + '\nEND\n', {'name': name, 'symbol': sym, 'cell': cell, 'scale': Sr.tolist(), 'atoms': atoms}
+    return '\n'.join(lines) + '\nEND\n', {'name': name, 'symbol': sym, 'cell': cell, 'scale': Sr.tolist(), 'scale_u': u, 'atoms': atoms}
 
 
 def check_pdb(text, exp):
@@ -298,7 +300,7 @@ def check_pdb(text, exp):
     for got, a in zip(al.atom, exp['atoms']):
         if got.label != a['label'] or got.atomtype != a['el']:
             return 'label/type %r/%r expected %r/%r' % (got.label, got.atomtype, a['label'], a['el'])
-        pos = S.dot(a['xyz'])
+        pos = S.dot(a['xyz']) + np.array(exp.get('scale_u', [0, 0, 0]))
         if np.abs(np.array(got.pos) - pos).max() > 1e-9:
             return 'fractional coordinates of %s' % a['label']
         if abs(got.occ - a['occ']) > 1e-9 or got.adp_type != 'Uiso' or abs(got.adp - a['b'] / EIGHT_PI2) > 1e-9:
